@@ -520,7 +520,6 @@ func impureSource(v ssa.Value, kTyp, kAttr ssa.Value, seen map[ssa.Value]bool, d
 	return fmt.Sprintf("a value of kind %T", v)
 }
 
-
 // controllingCondsBelow: the controlling conditions that lie below the innermost dominating
 // cache-hit test — everything above it decides whether the cache is consulted at all and is
 // implied by the key (nil object, map fast path, "is a struct"), everything below it decides
@@ -618,7 +617,6 @@ func isCacheHitTest(v ssa.Value, isCacheMap func(ssa.Value) bool, kAlloc *ssa.Al
 	}
 	return walk(v)
 }
-
 
 func blockReaches(from, to *ssa.BasicBlock) bool {
 	seen := map[*ssa.BasicBlock]bool{}
